@@ -150,6 +150,14 @@ func runC42(c *Ctx) {
 		if n < 2 {
 			c.Undecided("tell-consumer/sites", "hand-over sites found", "-", "fewer than two sites")
 		}
+		// a (re)registering consumer is told to resume exactly after the last confirmed sequence
+		for _, u := range c.UsesOf(c.FuncObj("internal/commands", "NewRegistrationAck")) {
+			if u.Call == nil || u.EnclObj == nil || funcName(u.EnclObj) != "actor.(*producerController).handleRegisterConsumer" {
+				continue
+			}
+			shape := exprShape(u.Pkg.TypesInfo, u.Call.Args[1])
+			c.Check(shape == ".confirmedSeq+1", "registration-ack/next=confirmed+1@"+u.EnclName(), "a RegistrationAck announces confirmedSeq+1 as the next sequence: everything unconfirmed is still owed to a new consumer incarnation, nothing confirmed is replayed", u.Where(c.P), "NextSeq is "+shape)
+		}
 		// watermark carried by Request / Ack
 		for _, ctor := range []string{"NewRequest", "NewAck"} {
 			for _, u := range c.UsesOf(c.FuncObj("internal/commands", ctor)) {
